@@ -172,6 +172,24 @@ func runC18(c *Ctx) {
 			}
 		}
 	}
+	// lexical forms of IssueInstant around the limit: zone-less (UTC whatever the process zone is), offsets
+	for _, d := range []time.Duration{-time.Minute, -1500 * time.Millisecond, 1500 * time.Millisecond, time.Minute} {
+		for fi, layout := range []string{"2006-01-02T15:04:05.000", "2006-01-02T15:04:05", "2006-01-02T15:04:05.000Z07:00", "2006-01-02T15:04:05.999999999Z07:00"} {
+			for _, enc := range encs[:2] {
+				rs := mkSpec(cfg, d)
+				t0 := time.Now().Add(-time.Duration(cfg.MaxIssueDelay) + d)
+				if fi >= 2 {
+					t0 = t0.In(time.FixedZone("", []int{-8 * 3600, 9*3600 + 1800}[fi-2]))
+				} else {
+					t0 = t0.UTC()
+				}
+				rs.Issue = sp(t0.Format(layout))
+				r := buildResponse(rs)
+				SignInto(r, 0)
+				add(&loRun{cfg: cfg, doc: r, enc: enc}, map[string]string{"class": "freshness-lexical", "delta": d.String(), "layout": layout})
+			}
+		}
+	}
 	{ // IssueInstant absent / empty / malformed
 		for _, v := range []*string{nil, sp(""), sp("yesterday")} {
 			rs := mkSpec(cfg, fresh)
@@ -224,6 +242,10 @@ func runC18(c *Ctx) {
 		{"id-edited-after-signing", func(r *Node) *Node { r.SetAttr("ID", "other"); return r }},
 		{"comment-added", func(r *Node) *Node { r.InsertAt(0, C("c")); return r }},
 		{"keyinfo-removed", func(r *Node) *Node { firstSig(r).SetKeyInfo(kiNone, 0); return r }},
+		{"keyinfo-keyvalue-only", func(r *Node) *Node { firstSig(r).SetKeyInfo(kiEmpty, 0); return r }},
+		{"keyinfo-keyvalue-only-2", func(r *Node) *Node { firstSig(r).SetKeyInfo(kiEmpty, 0); return r }},
+		{"keyinfo-keyvalue-only-3", func(r *Node) *Node { firstSig(r).SetKeyInfo(kiEmpty, 0); return r }},
+		{"keyinfo-extra-certificates", func(r *Node) *Node { firstSig(r).SetKeyInfo(kiCert, 0, 9, 1); return r }},
 		{"keyinfo-untrusted", func(r *Node) *Node { firstSig(r).SetKeyInfo(kiCert, 9); return r }},
 		{"root-is-logout-request", func(r *Node) *Node { r.Tag = "LogoutRequest"; return r }},
 		{"root-in-foreign-namespace", func(r *Node) *Node { r.Prefix = "x"; return r }},
